@@ -856,3 +856,7 @@ def replay(run, data) -> None:
         shutil.rmtree(base, ignore_errors=True)
     run.case('pad', True)
     run.case('pad2', True)
+
+
+# (kept at the end of the file so that the text above stays the description the check was first built to)
+RULE += ' ' + "Later additions: dir_data_limit 65535 / 65536 / 100000, also set through the dir_limit attribute of the open archive; dotted folder and file names; other spellings of the folder (trailing '/', './', doubled and backward slashes) in every name form; forged overwrites with equal CRC32 and equal length."
